@@ -583,8 +583,6 @@ _transitions = {
         (H2StreamStateMachine.reset_stream_on_error, StreamState.CLOSED),
     (StreamState.RESERVED_REMOTE, StreamInputs.SEND_WINDOW_UPDATE):
         (None, StreamState.RESERVED_REMOTE),
-    (StreamState.RESERVED_REMOTE, StreamInputs.RECV_WINDOW_UPDATE):
-        (H2StreamStateMachine.window_updated, StreamState.RESERVED_REMOTE),
     (StreamState.RESERVED_REMOTE, StreamInputs.SEND_RST_STREAM):
         (H2StreamStateMachine.send_reset_stream, StreamState.CLOSED),
     (StreamState.RESERVED_REMOTE, StreamInputs.RECV_RST_STREAM):
